@@ -382,6 +382,33 @@ func ServiceHealthEventsFromChanges(tx ReadTxn, changes Changes) ([]stream.Event
 		}
 	}
 
+	// A service mutation that changed the service's name (or a proxy's destination)
+	// needs deregistrations for subscribers of the old name (old destination). They
+	// must precede every registration of the same instance in this batch: for the
+	// Connect topic a renamed proxy keeps its subject (the destination) and its
+	// instance ID, so a deregistration applied after the registration would remove
+	// the instance from the subscribers' views.
+	for _, srvChange := range serviceChanges {
+		if srvChange.changeType != changeUpdate {
+			continue
+		}
+		before := srvChange.change.Before.(*structs.ServiceNode)
+		after := srvChange.change.After.(*structs.ServiceNode)
+
+		if before.ServiceName != after.ServiceName {
+			// Service was renamed, the code below will ensure the new registrations
+			// go out to subscribers to the new service name topic key, but we need
+			// to fix up subscribers that were watching the old name by sending
+			// deregistrations.
+			e := newServiceHealthEventDeregister(changes.Index, before)
+			events = append(events, e)
+		}
+
+		if e, ok := isConnectProxyDestinationServiceChange(changes.Index, before, after); ok {
+			events = append(events, e)
+		}
+	}
+
 	// Now act on those marked nodes/services
 	for node, changeType := range nodeChanges {
 		if changeType == changeDelete {
@@ -405,27 +432,6 @@ func ServiceHealthEventsFromChanges(tx ReadTxn, changes Changes) ([]stream.Event
 			e := newServiceHealthEventDeregister(changes.Index, sn)
 			events = append(events, e)
 			continue
-		}
-
-		// Check if this was a service mutation that changed it's name which
-		// requires special handling even if node changed and new events were
-		// already published.
-		if srvChange.changeType == changeUpdate {
-			before := srvChange.change.Before.(*structs.ServiceNode)
-			after := srvChange.change.After.(*structs.ServiceNode)
-
-			if before.ServiceName != after.ServiceName {
-				// Service was renamed, the code below will ensure the new registrations
-				// go out to subscribers to the new service name topic key, but we need
-				// to fix up subscribers that were watching the old name by sending
-				// deregistrations.
-				e := newServiceHealthEventDeregister(changes.Index, before)
-				events = append(events, e)
-			}
-
-			if e, ok := isConnectProxyDestinationServiceChange(changes.Index, before, after); ok {
-				events = append(events, e)
-			}
 		}
 
 		if _, ok := nodeChanges[tuple.nodeTuple()]; ok {
